@@ -84,6 +84,7 @@ def legalOp (op : String) (args : List String) : Option String :=
       match genOf p ms with
       | .ok es =>
           let env := envOf cfg
+          let eps := epsValue (1e-6 : Float) eps   -- `eps` on the wire is the plain value of the slack tree
           s!"{es.length}" ++ String.join (es.map fun e =>
             let sh (o : Option Float) : String := match o with | some x => sc x | none => "none"
             let mt : String := match e.met floatFns env eps tol with | some b => b01 b | none => "none"
